@@ -3,8 +3,8 @@ from vlib import *
 
 THEOREMS = ["C13_uint_len", "C13_int_len", "C13_bigint_len", "C13_varuint_len", "C13_varint_len",
             "C13_tag_len", "C13_uint_roundtrip", "C13_magnitude_u64", "C13_int_roundtrip",
-            "C13_bigint_roundtrip", "C13_bigmag_roundtrip", "C13_varuint_roundtrip", "C13_varint_roundtrip", "C13_varuint_exact", "C13acc_bin_reachable", "C13acc_bin_step", "C13acc_bin_int_size", "C13acc_bin_int_size_never_small", "C13acc_bin_int_size_exact_i64", "C13acc_bin_int_value", "C13acc_bin_int64_value", "C13acc_bin_bigint_value", "C13acc_bin_integers", "C13acc_bin_typed_null", "C13acc_bin_typed_null_any_err", "C13acc_bin_typed_null_is_null", "C13acc_bin_wrong_type", "C13acc_bin_accessor_state", "C13acc_text_reachable", "C13acc_text_step", "C13acc_text_parse_int", "C13acc_text_int_size", "C13acc_text_int_value", "C13acc_text_int64_value", "C13acc_text_bigint_value", "C13acc_text_integers", "C13acc_text_spelled_integer", "C13acc_text_typed_null", "C13acc_text_typed_null_is_null", "C13acc_text_wrong_type", "C13acc_text_accessor_state", "C13acc_narrow_widen", "C13acc_uses_f32_iff", "C13acc_float_four_bytes", "C13acc_float_eight_bytes", "C13acc_float_read_back", "C13acc_read_float_four"]
-EXTRA_MODULES = ["C13acc"]
+            "C13_bigint_roundtrip", "C13_bigmag_roundtrip", "C13_varuint_roundtrip", "C13_varint_roundtrip", "C13_varuint_exact", "C13acc_bin_reachable", "C13acc_bin_step", "C13acc_bin_int_size", "C13acc_bin_int_size_never_small", "C13acc_bin_int_size_exact_i64", "C13acc_bin_int_value", "C13acc_bin_int64_value", "C13acc_bin_bigint_value", "C13acc_bin_integers", "C13acc_bin_typed_null", "C13acc_bin_typed_null_any_err", "C13acc_bin_typed_null_is_null", "C13acc_bin_wrong_type", "C13acc_bin_accessor_state", "C13acc_text_reachable", "C13acc_text_step", "C13acc_text_parse_int", "C13acc_text_int_size", "C13acc_text_int_value", "C13acc_text_int64_value", "C13acc_text_bigint_value", "C13acc_text_integers", "C13acc_text_spelled_integer", "C13acc_text_typed_null", "C13acc_text_typed_null_is_null", "C13acc_text_wrong_type", "C13acc_text_accessor_state", "C13acc_narrow_widen", "C13acc_uses_f32_iff", "C13acc_float_four_bytes", "C13acc_float_eight_bytes", "C13acc_float_read_back", "C13acc_read_float_four", "C13enc_bin_spec_reads", "C13enc_bin_int_top", "C13enc_bin_size_never_small", "C13enc_bin_size_exact", "C13enc_bin_size_big", "C13enc_bin_int", "C13enc_bin_int_after", "C13enc_bin_int_field", "C13enc_bin_int_spec_top", "C13enc_bin_int_spec", "C13enc_bin_ok_inline", "C13enc_bin_ok_minimal_varuint", "C13enc_text_int_top", "C13enc_text_int", "C13enc_text_int_at_rest", "C13enc_text_spells_dec", "C13enc_text_spells_radix", "C13enc_text_int_top_dec", "C13enc_text_int_top_radix"]
+EXTRA_MODULES = ["C13acc", "C13enc"]
 
 U64 = 1 << 64
 
